@@ -204,18 +204,53 @@ fn check_csv(d: &mut Driver, name: &str, data: &[u8], res: &mut Res) {
     }
 }
 
+/// every vector of row widths (1..=4 fields) for three data rows under a 3-column header, and under no header:
+/// rows that are too short / too long in every combination (incl. those whose total field count balances out)
+fn check_csv_ragged(d: &mut Driver, res: &mut Res) {
+    for header in [true, false] {
+        for w in 0..64usize {
+            let widths = [1 + w % 4, 1 + (w / 4) % 4, 1 + (w / 16) % 4];
+            let mut data = String::new();
+            if header {
+                data.push_str("id,name,score\n");
+            }
+            for (r, &n) in widths.iter().enumerate() {
+                let cells: Vec<String> = (0..n).map(|c| if c == 1 { format!("n{r}") } else { format!("{}", r * 10 + c) }).collect();
+                data.push_str(&cells.join(","));
+                data.push('\n');
+            }
+            let name = format!("ragged:{}{}-{}-{}", if header { "h3:" } else { "" }, widths[0], widths[1], widths[2]);
+            for sql in ["SELECT * FROM read_csv('f.csv')", "SELECT count(*) FROM read_csv('f.csv')", "SELECT column3 FROM read_csv('f.csv')", "SELECT score, id FROM read_csv('f.csv')"] {
+                run_one(d, "f.csv", sql, data.as_bytes(), BTreeMap::new(), "csv-ragged".to_string(), name.clone(), res);
+            }
+            for b in [1usize, 2] {
+                if d.dirty {
+                    break;
+                }
+                d.must(&format!("SET batch_size TO {b}"));
+                run_one(d, "f.csv", "SELECT * FROM read_csv('f.csv')", data.as_bytes(), BTreeMap::new(), "csv-ragged".to_string(), format!("{name} batch_size {b}"), res);
+                if !d.dirty {
+                    d.must("SET batch_size TO 2048");
+                }
+            }
+        }
+    }
+}
+
 pub fn run(tier: Tier) -> i32 {
     let mut rep = Report::new("C19", tier, "fault_enumeration");
     crate::guard::set_wall_limit_ms(3_000);
     let files = base_files(tier);
     let csvs = csv_faults();
     let nf = files.len();
-    let results = par_run(nf + csvs.len(), Driver::new, |d, i| {
+    let results = par_run(nf + csvs.len() + 1, Driver::new, |d, i| {
         let mut res = Res::default();
         if i < nf {
             check_parquet(d, &files[i], tier, &mut res);
-        } else {
+        } else if i < nf + csvs.len() {
             check_csv(d, csvs[i - nf].0, &csvs[i - nf].1, &mut res);
+        } else {
+            check_csv_ragged(d, &mut res);
         }
         res
     });
@@ -232,7 +267,7 @@ pub fn run(tier: Tier) -> i32 {
     }
     rep.cov("evaluations", json!(evals));
     rep.cov("distinct_nontrivial", json!(rows.min(1) + errors));
-    rep.cov("rule", json!(format!("{} small valid pqgen files (one per (type, encoding, page version, codec) class, 7 rows with a NULL, two pages) x {{every truncation length, every single-byte substitution by 0x00 / 0xFF / b^1 / b^0x80 / b+1 / b-1 (quick: 2 substitutions inside value bodies), every integer field of FileMetaData / RowGroup / ColumnMetaData / PageHeader / DataPageHeader(V2) / DictionaryPageHeader set to -1, 0, 1, true+1, true-1, 2^31-1, 2^63-1 (footer length corrected so only that field lies), an I/O error at every read call, the metadata table functions on lying footers}}; {} malformed CSV files (invalid UTF-8, unterminated quotes, ragged rows, NUL bytes, lone CR, 1 MiB field, 5000 columns, ...) with truncations, byte substitutions and I/O errors. Oracle: rows or an error; never a panic, abort, hang. Each fault is distinct by construction; non-trivial = faults that produced an error", nf, csvs.len())));
+    rep.cov("rule", json!(format!("{} small valid pqgen files (one per (type, encoding, page version, codec) class, 7 rows with a NULL, two pages) x {{every truncation length, every single-byte substitution by 0x00 / 0xFF / b^1 / b^0x80 / b+1 / b-1 (quick: 2 substitutions inside value bodies), every integer field of FileMetaData / RowGroup / ColumnMetaData / PageHeader / DataPageHeader(V2) / DictionaryPageHeader set to -1, 0, 1, true+1, true-1, 2^31-1, 2^63-1 (footer length corrected so only that field lies), an I/O error at every read call, the metadata table functions on lying footers}}; {} malformed CSV files (invalid UTF-8, unterminated quotes, ragged rows, NUL bytes, lone CR, 1 MiB field, 5000 columns, ...) with truncations, byte substitutions and I/O errors, and every combination of row widths 1..4 for three data rows with and without a 3-column header under four projections and batch sizes 1 / 2 / 2048. Oracle: rows or an error; never a panic, abort, hang. Each fault is distinct by construction; non-trivial = faults that produced an error", nf, csvs.len())));
     rep.cov("faults_not_fed_after_first_blowup_of_their_group", json!(skipped));
     rep.cov("faults_returning_rows", json!(rows));
     rep.cov("faults_returning_error", json!(errors));
